@@ -469,6 +469,46 @@ func c02(env *Env, rep *Report) {
 			rep.violate("C02/expiry-not-judged-against-the-current-time", fmt.Sprintf("cookie minted at t0 checked at t0, t0+4m, t0+7m, cookie minted at t0+7m checked then, both at t0+27m: accepted=%v, want [true true false true false false]", got), map[string]any{"noreplay": true})
 		}
 	}
+	// ... also when the client connected (and shook hands) while its cookie was still good and asks for the tunnel
+	// later: what counts is the time of the tunnel request
+	if env.Shard == 0 {
+		for _, kind := range []string{"proc", "ws", "legacy"} {
+			for _, wait := range []string{"", "clock+3m", "clock+7m", "clock+30m"} {
+				vclock.Reset()
+				idp := InstallIdP()
+				idp.Mode = "honour"
+				ctx, _ := c02Ctx()
+				tok, _ := security.GeneratePAAToken(ctx, "alice", hostA+":3389")
+				g := GwCfg{TokenAuth: true, HostSelection: "roundrobin", Hosts: []string{hostA + ":3389"}, VerifyIP: true}
+				cfg := SeqCfg{Gw: g, Kind: kind, User: "", ClientIP: "10.0.0.1", RemoteAddr: "10.0.0.1:50000", Accept: func(string) bool { return true }}
+				segs := []Seg{{Bytes: tsgu.Handshake(1, 0, 0, tsgu.ExtAuthPAA)}}
+				if wait != "" {
+					segs = append(segs, Seg{Action: wait})
+				}
+				segs = append(segs, Seg{Bytes: tsgu.TunnelCreate(tok, true)})
+				res := RunSeq(cfg, segs)
+				vclock.Reset()
+				distinct++
+				rep.add("executions", 1)
+				rep.add("transitions", int64(res.StepsRun))
+				if len(res.Panics) > 0 || len(res.Steps) != len(segs) {
+					continue
+				}
+				st := uint32(0xFFFFFFFF)
+				if last := res.Steps[len(segs)-1]; len(last.Resps) == 1 {
+					st = tsgu.ParseResp(last.Resps[0]).Status
+				}
+				wantOK := wait == "" || wait == "clock+3m"
+				rep.outcome(fmt.Sprintf("connected-then-%s %s status=%#x", wait, kind, st))
+				if wantOK && st != 0 {
+					rep.violate("C02/valid-cookie-refused-by-processor/connected-earlier", fmt.Sprintf("transport %s, tunnel request %q after the handshake: status %#x", kind, wait, st), map[string]any{"noreplay": true})
+				}
+				if !wantOK && st == 0 {
+					rep.violate("C02/expired-cookie-accepted/connected-while-it-was-valid", fmt.Sprintf("transport %s: the client connected and shook hands when the cookie was fresh, the tunnel request came %s later (lifetime 5 minutes, leeway 1 minute) and was answered with success", kind, wait[6:]), map[string]any{"noreplay": true})
+				}
+			}
+		}
+	}
 	// smart-card authentication enabled next to token authentication, and a client whose handshake offers
 	// smart card only, both, or cookie only: a tunnel is still created only with an accepted cookie
 	if env.Shard == 0 {
